@@ -1569,7 +1569,7 @@ func runC20(tier string, seed int64, outdir string, replay string) error {
 			c20Scripted(cat(one(St(0, 0)), rep(S(0), 9), one(St(1, 1)), rep(S(1), 9), one(Rs(1)), one(St(2, 1)), rep(S(2), 14), one(St(3, 0)))), nil); err != nil {
 			return err
 		}
-		// 78ef728: one instance, the CA was re-installed: exactly one new account, and it is used
+		// 6e1a233: one instance, the CA was re-installed: exactly one new account, and it is used
 		if err := addHist("seq-recreate", email, []int{0, 0, 0},
 			c20Scripted(cat(one(St(0, 0)), rep(S(0), 9), one(Rs(0)), one(St(1, 0)))), map[string]any{"witness": "ca-reinstalled-single-instance"}); err != nil {
 			return err
@@ -1681,7 +1681,7 @@ func runC20(tier string, seed int64, outdir string, replay string) error {
 
 	// ---- configured account key: lock-step histories
 	Pb := c20Action{K: "probe"}
-	// ec5c5dd: a save over the stored account fails at the key file and is rolled back: the key
+	// 55396a9: a save over the stored account fails at the key file and is rolled back: the key
 	// file is left without its registration; the next call must look the account up again
 	for _, pe := range []bool{true, false} {
 		m := 0
@@ -1800,7 +1800,7 @@ func runC20(tier string, seed int64, outdir string, replay string) error {
 	}
 	// the old witness: a public test CA over plain HTTP
 	addURL(good, "http://testca.public.example/dir", true)
-	// f979ea4: addresses of ::/7 that are not the loopback (NAT64, discard prefix, IPv4-compatible)
+	// c25e00d: addresses of ::/7 that are not the loopback (NAT64, discard prefix, IPv4-compatible)
 	for _, h := range []string{"[64:ff9b::808:808]:80", "[100::1]:80", "[::8.8.8.8]:8080", "::1:80", "[::2]:443"} {
 		addURL("http://"+h+"/dir", "", false)
 		addURL(good, "http://"+h+"/dir", true)
@@ -1822,7 +1822,7 @@ func runC20(tier string, seed int64, outdir string, replay string) error {
 		contactJob{good, "testca.public.example/dir", true}, contactJob{good, "http:testca.public.example/dir", true},
 		contactJob{"http://[64:ff9b::808:808]:80/dir", "", false}, contactJob{good, "http://[100::1]:80/dir", true}, contactJob{good, "http://[::1]:80/dir", true})
 	// every host of the table over plain HTTP, as CA and as test CA: whatever the rule lets through
-	// must be internal under the name that is really contacted (0b655e3: "example.İnternal")
+	// must be internal under the name that is really contacted (37c99c0: "example.İnternal")
 	for _, h := range c20Hosts {
 		jobs = append(jobs, contactJob{"http://" + h + "/dir", "", false}, contactJob{good, "HTTP://" + h + ":8080/dir", true})
 	}
